@@ -118,6 +118,8 @@ type FnVC struct {
 	arrSlices map[string]arrSlice
 	localKeys map[string]string
 	loopFresh map[string]bool
+	owned     []string // refs of objects owned by the function (see ownedValue)
+	inLoopHavoc bool
 	atDone    map[string]bool
 	atUsed    []string
 }
@@ -701,6 +703,7 @@ const preamble = `(declare-sort Str 0)
 (declare-fun gs.at (Str Int) Int)
 (declare-const gs.empty Str)
 (assert (= (gs.len gs.empty) 0))
+(assert (forall ((s Str)) (! (>= (gs.len s) 0) :pattern ((gs.len s)))))
 (declare-fun gs.diff (Str Str) Int)
 (declare-datatypes ((Slice 0)) (((mkslice (s.base Int) (s.off Int) (s.len Int) (s.cap Int)))))
 (declare-datatypes ((Iface 0)) (((mkiface (i.tag Int) (i.pay Int)))))
